@@ -97,7 +97,8 @@ def anomalies(sc, obs):
             left_open.add(i)
             out.append(f"source-left-open:{s['role']}-source:{'streamed' if s['streamed'] else 'plain'}:in-{s['encl']}:depth-{dcls(s['depth'])}")
         if s.get("cleanup_interrupted") and sc["stop"]["kind"] != "cancel_pull":
-            out.append(f"source-cleanup-interrupted:{s['role']}-source:{'streamed' if s['streamed'] else 'plain'}")
+            own = ":after-own-failure" if s.get("raised") else ""
+            out.append(f"source-cleanup-interrupted:{s['role']}-source:{'streamed' if s['streamed'] else 'plain'}:in-{s['encl']}:depth-{dcls(s['depth'])}{own}")
         if s["acloses"] > 1:
             out.append(f"source-closed-twice:{s['role']}-source:{'streamed' if s['streamed'] else 'plain'}")
     lo, hi = expected_hooks(sc, obs)
@@ -134,14 +135,20 @@ def classify(ctx, anomaly, sc, obs):
     a = anomaly
     # 13. a second cancellation reaches a source that is already releasing its resource after the first one
     #     (C03: an outer gather_with_cancel cancels the task that waits for the inner one's cancelled children)
-    # 11. with an abort signal every resolver runs in a task of its own: when a failing field cancels its siblings,
-    #     gather_with_cancel returns as soon as the direct children are cancelled, their resolvers unwind a little later
-    if a.startswith("hook-early:resolver-running:") and kind in ("abort", "abort_initial") and (
-        family != "incremental" or a.endswith("depth-0")
+    # 13. a list field is closing its source for a reason of its own (the source itself raised, or its pending
+    #     __anext__ was rejected with the abort reason) when a failing sibling field has it cancelled: the
+    #     cancellation lands inside the close that is already running.  (A close that was started by a cancellation
+    #     and is cut short by a second one - gather_with_cancel before 1574f97 - is a VIOLATION again.)
+    if a.startswith("source-cleanup-interrupted:list-source:plain:") and (
+        a.endswith(":after-own-failure") or kind in ("abort", "abort_initial")
     ):
-        return "sibling-cancellation-with-abort-signal:hook-before-cancelled-resolvers-unwound"
-    if a.startswith("source-cleanup-interrupted:list-source:plain"):
-        return "sibling-non-null-errors:second-cancel-interrupts-source-cleanup"
+        return "sibling-cancellation:interrupts-source-close-in-progress"
+    # 14. StreamItemQueue cancels a pending item future in abort() and again in _settle_pending(): the second
+    #     cancellation interrupts the close of a plain list source nested in that item
+    if kind == "aclose" and family == "incremental" and (
+        a.startswith("source-cleanup-interrupted:list-source:plain:in-stream:") or a == "source-cleanup-interrupted:list-source:plain:in-defer:depth-2+"
+    ):
+        return "stream-abort:item-cancelled-twice-interrupts-nested-source-close"
     if a.startswith("source-cleanup-interrupted:list-source:streamed") and family == "incremental":
         # StreamItemQueue.abort cancels the producer and _cleanup cancels it again while it is closing the source
         return "stream-abort:producer-cancelled-twice-interrupts-source-cleanup"
@@ -343,7 +350,7 @@ def _run_all(ctx, tag, n_req, per_request, with_model=True):
 def explore(ctx) -> Report:
     fw.use_repo()
     quick = ctx.tier == "quick"
-    n_req, per = (450, 12) if quick else (5000, 30)
+    n_req, per = (600, 12) if quick else (5000, 30)
     if ctx.escalate and quick:
         n_req *= 2
     rep, n = _run_all(ctx, "c06", n_req, per)
